@@ -253,3 +253,79 @@ theorem table_ok (reg : Registry) (ft : QFeature) (fs : List QFeature) (rest : B
   simp [readFeature, readItems, learnTable]
 
 end Gts.GenBank
+
+namespace Gts.GenBank
+open Gts.Pars
+
+/-! ### the writer's table text and the `FEATURES` field -/
+
+theorem shift_lf {α} (g : α → Bytes) (xs : List α) :
+    (xs.flatMap fun x => 10 :: g x) ++ [10] = 10 :: xs.flatMap (fun x => g x ++ [10]) := by
+  induction xs with
+  | nil => rfl
+  | cons x xs ih =>
+    simp only [List.flatMap_cons, List.cons_append, List.append_assoc]
+    rw [ih]
+    simp
+
+/-- `featureText` of a feature whose key fits and whose rows all have a name -/
+theorem featureText_lines (reg : Registry) (f : QFeature) (h1 : f.key.length ≤ 16) (h2 : propsOk f.props = true) :
+    ∃ t, featureText reg f = .ok t ∧ t ++ [10] = featLines reg f := by
+  refine ⟨_, by simp only [featureText, show ¬ f.key.length > 16 by omega, if_false, h2]; rfl, ?_⟩
+  have := shift_lf (fun kv : Bytes × Bytes => qualifierFmt reg (sp 21) kv.1 kv.2) (propsItems f.props)
+  simp only [featLines, keylineText, qualLines, List.append_assoc]
+  rw [this]
+
+theorem tableText_lines (reg : Registry) (ft : QFeature) (fs : List QFeature)
+    (h : ∀ f ∈ ft :: fs, f.key.length ≤ 16 ∧ propsOk f.props = true) :
+    ∃ t, tableText reg (ft :: fs) = .ok t ∧ t ++ [10] = featsText reg (ft :: fs) := by
+  induction fs generalizing ft with
+  | nil =>
+    obtain ⟨h1, h2⟩ := h ft (by simp)
+    obtain ⟨t, ht, e⟩ := featureText_lines reg ft h1 h2
+    exact ⟨t, by simp [tableText, ht], by simp [featsText, e]⟩
+  | cons f2 fs ih =>
+    obtain ⟨h1, h2⟩ := h ft (by simp)
+    obtain ⟨t, ht, e⟩ := featureText_lines reg ft h1 h2
+    obtain ⟨t', ht', e'⟩ := ih f2 (fun x hx => h x (by simp [hx]))
+    refine ⟨t ++ 10 :: t', ?_, ?_⟩
+    · simp only [tableText, ht, ht']; rfl
+    · simp only [featsText, List.flatMap_cons] at e' ⊢
+      rw [← e, ← e']; simp
+
+/-- rows with a name (needed by `Props.Keys`) follow from the key being legal and every item
+being writable only for non-empty rows; stated separately -/
+def tableWritable (reg : Registry) (fs : List QFeature) : Bool :=
+  fs.all fun f => featOk reg f && propsOk f.props
+
+/-- **FEATURES round trip.**  The `FEATURES` section that `GenBank.String` writes for a non-empty
+table — header line, `INSDCFormatter` text, line feed — read by `genbankFeatureParser`: the same
+keys and locations in the same order, every qualifier item in its order with its value (`\n` for
+toggles), the registry only grows.  (`state.Clear()` empties the stack.) -/
+theorem features_roundtrip (reg : Registry) (ft : QFeature) (fs : List QFeature) (rest : Bytes)
+    (stk : List Bytes) (hw : tableWritable reg (ft :: fs) = true) (hloc : ∀ x ∈ ft :: fs, LocRT x.loc)
+    (hrest : (sp 5).isPrefixOf rest = false) :
+    ∃ t, tableText reg (ft :: fs) = .ok t ∧
+      featuresField reg ⟨bs "FEATURES             Location/Qualifiers\n" ++ (t ++ 10 :: rest), stk⟩ =
+        (.ok ((ft :: fs).map (readFeature reg), learnTable reg (ft :: fs)), ⟨rest, []⟩) := by
+  simp only [tableWritable, List.all_eq_true, Bool.and_eq_true] at hw
+  have hk : ∀ f ∈ ft :: fs, f.key.length ≤ 16 ∧ propsOk f.props = true := by
+    intro f hf
+    obtain ⟨h1, h2⟩ := hw f hf
+    simp only [featOk, keyOk, Bool.and_eq_true, decide_eq_true_eq] at h1
+    exact ⟨by omega, h2⟩
+  obtain ⟨t, ht, e⟩ := tableText_lines reg ft fs hk
+  refine ⟨t, ht, ?_⟩
+  have e2 : t ++ 10 :: rest = featsText reg (ft :: fs) ++ rest := by
+    rw [← e]; simp
+  rw [e2]
+  have hline := fun s => line_ok (bs "             Location/Qualifiers") (featsText reg (ft :: fs) ++ rest) s (by decide)
+  have hlit := fun r s => lit_ok (bs "FEATURES") r s
+  have e3 : bs "FEATURES             Location/Qualifiers\n" ++ (featsText reg (ft :: fs) ++ rest) =
+      bs "FEATURES" ++ (bs "             Location/Qualifiers" ++ 10 :: (featsText reg (ft :: fs) ++ rest)) := by
+    simp [bs]
+  rw [e3]
+  have ht' := fun s => table_ok reg ft fs rest s (fun x hx => ⟨(hw x hx).1, hloc x hx⟩) hrest
+  gsimp [featuresField, hlit, hline, ht']
+
+end Gts.GenBank
